@@ -112,6 +112,13 @@ class OnEvent(Contract):
             if len(w) == 1:
                 d = rfc6455.decode_one(w[0])
                 out += [(n, f, ('C14',)) for n, f in payload_facts(w[0], d, 10, 0, st.get(a.event, 'data'))]
+            if ip.reading == 'body':
+                from pyvc.contracts import calls_since
+                cs = calls_since(ip, old, 'WebsocketSession._send_pong')
+                if truthy is True:
+                    out.append(('the-pong-is-attempted-exactly-once-for-this-ping', BoolVal(len(cs) == 1 and cs[0].event == a.event), ('C14',)))
+                elif truthy is False:
+                    out.append(('no-pong-attempt-without-auto_pong', BoolVal(len(cs) == 0), ('C14',)))
         else:
             out.append(('nothing-written', BoolVal(len(w) == 0)))
             if is_event(ip, a.event, events.Pong) and ip.reading == 'body':
